@@ -398,10 +398,10 @@ def make_recipes(ctx, emitted=()):
         if r is not None:
             recipes.append(r)
     ar = not ctx.quick
-    n_rand = ctx.pick(110, 1500)
-    n_deg = ctx.pick(40, 700)
-    n_gram = ctx.pick(40, 700)
-    n_fam = ctx.pick(4, 50)
+    n_rand = ctx.pick(110, 2500)
+    n_deg = ctx.pick(40, 1000)
+    n_gram = ctx.pick(40, 1000)
+    n_fam = ctx.pick(4, 80)
     for _ in range(n_rand):
         add(recipe_for(rng, "L", rand_lattice(rng), "random-lattice", all_routes=ar))
     for _ in range(n_deg):
@@ -413,7 +413,7 @@ def make_recipes(ctx, emitted=()):
             add(recipe_for(rng, "G", family_gram(rng, fam), "family-gram", all_routes=ar))
             add(recipe_for(rng, "L", family_lattice(rng, fam), "family-lattice", all_routes=ar))
     small = list(emitted)
-    k = ctx.pick(30, 600)
+    k = ctx.pick(30, 1000)
     if len(small) > k:
         small = rng.sample(small, k)
     for L in small:
